@@ -99,6 +99,165 @@ static void trunc_stat(Env& V, const char* pred, Q err, Q scale, Q sens, const s
   if (excess > 0) V.ctx.worst(std::string(pred) + ".series_trunc_constant", qd(excess) * EPS / V.n7, where);
 }
 
+// ================================================================= E2: operation histories on RhumbLine and Rhumb objects
+// Differential oracle, no tolerance: every output of every call in every history must be BIT-identical to the output of
+// the same single call on a freshly created object (outputs start as sentinels, so "left untouched" is compared too).
+// Explicit-state BFS over operation histories, de-duplicated on a canonical key that contains EVERY field of the object
+// (all private members incl. mutable ones, read with -fno-access-control; the reference member of RhumbLine is replaced
+// by the serialised state of the Rhumb it points to).  Merged states have identical futures because the calls are
+// deterministic functions of (object bytes, arguments); a state is materialised by replaying its history on a fresh
+// Rhumb + fresh line, and the replay must reproduce the recorded key (else harness error = uninitialised field).
+#include <set>
+static std::string bytes_of(const void* p, size_t n) { return std::string((const char*)p, n); }
+static std::string rhumb_key(const Rhumb& r) {
+  // DAuxLatitude: reals only (16 scalars + the mutable coefficient table _c); then the scalar members and the P_l table
+  std::string k = bytes_of(&r._aux, sizeof(r._aux));
+  double sc[5] = {r._a, r._f, r._n, r._rm, r._c2}; k += bytes_of(sc, sizeof sc);
+  int ii[2] = {r._exact ? 1 : 0, r._lL}; k += bytes_of(ii, sizeof ii);
+  if (!r._pP.empty()) k += bytes_of(r._pP.data(), r._pP.size() * sizeof(double));
+  return k;
+}
+static std::string line_key(const RhumbLine& l) {
+  // whole object except the leading reference member (8 bytes); all other members are reals / AuxAngle (two reals)
+  static_assert(sizeof(RhumbLine) % sizeof(double) == 0, "RhumbLine layout");
+  return bytes_of((const char*)&l + sizeof(void*), sizeof(RhumbLine) - sizeof(void*)) + rhumb_key(l._rh);
+}
+struct HOp { int kind; unsigned mask; double a[4]; std::string name; };     // kind: see apply functions
+struct HOut { double v[3]; bool same(const HOut& o) const { for (int i = 0; i < 3; ++i) if (!mc::same_bits(v[i], o.v[i])) return false; return true; } };
+static const double HSENT[3] = {-3.0000000011e302, -3.0000000022e302, -3.0000000033e302};
+static std::string hout_str(const HOut& o) {
+  std::string s; for (int i = 0; i < 3; ++i) s += (i ? "," : "") + (mc::same_bits(o.v[i], HSENT[i]) ? std::string("<untouched>") : fx(o.v[i])); return "(" + s + ")";
+}
+static HOut apply_line(const RhumbLine& l, const HOp& op) {
+  HOut o; for (int i = 0; i < 3; ++i) o.v[i] = HSENT[i];
+  switch (op.kind) {
+  case 0: l.Position(op.a[0], o.v[0], o.v[1]); break;
+  case 1: l.Position(op.a[0], o.v[0], o.v[1], o.v[2]); break;
+  default: l.GenPosition(op.a[0], op.mask, o.v[0], o.v[1], o.v[2]); break;
+  }
+  return o;
+}
+static HOut apply_rhumb(const Rhumb& r, const HOp& op) {
+  HOut o; for (int i = 0; i < 3; ++i) o.v[i] = HSENT[i];
+  switch (op.kind) {
+  case 0: r.Direct(op.a[0], op.a[1], op.a[2], op.a[3], o.v[0], o.v[1]); break;
+  case 1: r.Direct(op.a[0], op.a[1], op.a[2], op.a[3], o.v[0], o.v[1], o.v[2]); break;
+  case 2: r.GenDirect(op.a[0], op.a[1], op.a[2], op.a[3], op.mask, o.v[0], o.v[1], o.v[2]); break;
+  case 3: r.Inverse(op.a[0], op.a[1], op.a[2], op.a[3], o.v[0], o.v[1]); break;
+  case 4: r.Inverse(op.a[0], op.a[1], op.a[2], op.a[3], o.v[0], o.v[1], o.v[2]); break;
+  case 5: r.GenInverse(op.a[0], op.a[1], op.a[2], op.a[3], op.mask, o.v[0], o.v[1], o.v[2]); break;
+  default: { RhumbLine l = r.Line(op.a[0], op.a[1], op.a[2]); l.GenPosition(op.a[3], op.mask, o.v[0], o.v[1], o.v[2]); } break;
+  }
+  return o;
+}
+static std::string hmask(unsigned m) {
+  std::string s;
+  auto add = [&](unsigned b, const char* n) { if (m & b) { if (!s.empty()) s += "|"; s += n; } };
+  add(Rhumb::LATITUDE, "LAT"); add(Rhumb::LONGITUDE, "LON"); add(Rhumb::AZIMUTH, "AZI"); add(Rhumb::DISTANCE, "DIST"); add(Rhumb::AREA, "AREA"); add(Rhumb::LONG_UNROLL, "UNROLL");
+  return s.empty() ? "NONE" : s;
+}
+// generic BFS.  MK() makes a fresh object graph and returns a handle on which APPLY(handle, op) and KEY(handle) work.
+template <class MK, class AP, class KY>
+static void history_bfs(Ctx& ctx, const std::string& title, const std::vector<HOp>& ops, int depth, MK make, AP apply, KY key, const mc::Fields& F0) {
+  // reference: each op alone on a fresh object
+  std::vector<HOut> ref(ops.size());
+  for (size_t i = 0; i < ops.size(); ++i) { auto h = make(); ref[i] = apply(*h, ops[i]); }
+  std::vector<std::vector<int>> frontier(1);            // histories of the states to expand, all of the current length
+  std::set<std::string> seen;
+  { auto h = make(); seen.insert(key(*h)); }
+  std::map<std::vector<int>, std::string> keyof; keyof[{}] = *seen.begin();
+  uint64_t nstates = 1, ntrans = 0; bool capped = false;
+  for (int len = 0; len < depth && !frontier.empty(); ++len) {
+    std::vector<std::vector<int>> next;
+    for (const auto& hist : frontier) for (size_t oi = 0; oi < ops.size(); ++oi) {
+      Ctx::Case cs(ctx);
+      auto h = make();
+      for (int j : hist) apply(*h, ops[j]);
+      std::string hn; for (int j : hist) hn += ops[j].name + " ; ";
+      std::string kk = title + " history [" + hn + "] then " + ops[oi].name;
+      if (key(*h) != keyof[hist]) { ctx.fail(kk + " replay", "replaying a history on a fresh object does not reproduce its state (uninitialised member?)", {{"kind", "history-replay-divergence"}}); continue; }
+      HOut o = apply(*h, ops[oi]); ++ntrans;
+      ctx.sig(hist.size() * 1000003ull + oi);
+      if (!o.same(ref[oi])) {
+        mc::Fields F = F0; F.push_back({"kind", "history-dependence"}); F.push_back({"op", ops[oi].name}); F.push_back({"history_length", fmti((long long)hist.size())});
+        ctx.fail(kk, "outputs " + hout_str(o) + " differ from the same call on a fresh object " + hout_str(ref[oi]), F);
+      }
+      std::string k2 = key(*h);
+      if (!seen.count(k2)) {
+        if (seen.size() >= 4000) { capped = true; continue; }
+        seen.insert(k2); ++nstates;
+        std::vector<int> h2 = hist; h2.push_back((int)oi); keyof[h2] = k2;
+        if (len + 1 < depth) next.push_back(h2);
+      }
+    }
+    frontier.swap(next);
+  }
+  ctx.count("history_states", nstates); ctx.count("history_transitions", ntrans);
+  if (capped) ctx.not_exhaustive(title + ": more than 4000 distinct object states, history exploration truncated");
+}
+
+static void run_histories(Ctx& ctx, bool T) {
+  struct RC { double a, f; bool exact; bool quick; };
+  const RC rcs[] = {{WA, WF, false, true}, {WA, WF, true, true}, {WA, 0.1, true, true}, {WA, -0.05, false, false}, {WA, 0.1, false, false}, {WA, -0.3, true, false}};
+  struct LN { const char* name; double lat1, lon1, azi; bool quick; };
+  const LN lns[] = {{"generic", 40, -70, 60, true}, {"east", 30, 170, 90, true}, {"north", -20, 10, 0, true}, {"from-near-pole", 89.9, 0, 200, false}, {"nearly-east", 0, 0, 90 - 1e-10, false}};
+  const int depth = T ? 4 : 3;
+  // distances chosen to COLLIDE: the same s with every mask, s and -s, 0, beyond the pole (oblique / meridional lines), two different s
+  std::vector<double> ss = {1e6, -1e6, 0, 1.5e7, 2.5e6};
+  if (T) { ss.push_back(1e-3); ss.push_back(-1.5e7); }
+  std::vector<unsigned> masks;
+  for (unsigned b = 0; b < 16; ++b) masks.push_back((b & 1 ? Rhumb::LATITUDE : 0) | (b & 2 ? Rhumb::LONGITUDE : 0) | (b & 4 ? Rhumb::AREA : 0) | (b & 8 ? Rhumb::LONG_UNROLL : 0));
+  masks.push_back(Rhumb::ALL); masks.push_back(Rhumb::ALL | Rhumb::LONG_UNROLL);      // with the bits that are not outputs of the direct problem
+  ctx.bound("history.depth", fmti(depth) + " calls on one object (all sequences; explicit-state BFS de-duplicated on the full private state)");
+  ctx.bound("history.line-ops", fmti((long long)ss.size()) + " distances (repeated, +-, 0, beyond the pole) x {Position(lat2,lon2), Position(lat2,lon2,S12), GenPosition with the 16 subsets of {LATITUDE,LONGITUDE,AREA,LONG_UNROLL}, ALL, ALL|LONG_UNROLL}");
+  ctx.sub("history-line");
+  for (const RC& rc : rcs) for (const LN& ln : lns) {
+    if (!T && !(rc.quick && ln.quick)) continue;
+    if (!ctx.take()) continue;
+    std::vector<HOp> ops;
+    for (double s : ss) {
+      ops.push_back({0, 0, {s, 0, 0, 0}, "Position(" + fmt(s) + ",lat2,lon2)"});
+      ops.push_back({1, 0, {s, 0, 0, 0}, "Position(" + fmt(s) + ",lat2,lon2,S12)"});
+      for (unsigned m : masks) ops.push_back({2, m, {s, 0, 0, 0}, "GenPosition(" + fmt(s) + "," + hmask(m) + ")"});
+    }
+    struct H { std::unique_ptr<Rhumb> r; std::unique_ptr<RhumbLine> l; };
+    std::string title = std::string("Rhumb(") + fmt(rc.a) + "," + fmt(rc.f) + (rc.exact ? ",exact" : ",series") + ").Line(" + fmt(ln.lat1) + "," + fmt(ln.lon1) + "," + fmt(ln.azi) + ")";
+    history_bfs(ctx, title, ops, depth,
+                [&]() { std::unique_ptr<H> h(new H); h->r.reset(new Rhumb(rc.a, rc.f, rc.exact)); h->l.reset(new RhumbLine(h->r->Line(ln.lat1, ln.lon1, ln.azi))); return h; },
+                [](H& h, const HOp& op) { return apply_line(*h.l, op); },
+                [](H& h) { return line_key(*h.l); },
+                {{"object", "RhumbLine"}, {"line", ln.name}, {"exact", fmti(rc.exact)}, {"f", fmt(rc.f)}});
+  }
+  // Rhumb itself: every member function is const and the class has no lazily filled state (AuxLatitude::_c is declared
+  // mutable but is filled by the constructor); the history exploration is kept because it is cheap
+  ctx.bound("history.rhumb-ops", "2 argument sets x {Direct x2, GenDirect 18 masks, Inverse x2, GenInverse 8 masks, Line+GenPosition 2 masks}, depth " + fmti(T ? 3 : 2));
+  ctx.sub("history-rhumb");
+  for (const RC& rc : rcs) {
+    if (!T && !rc.quick) continue;
+    if (!ctx.take()) continue;
+    std::vector<HOp> ops;
+    const double dargs[2][4] = {{40, -70, 60, 2e6}, {-20, 170, 90, -4e6}}, iargs[2][4] = {{40, -70, 55, 10}, {30, 0, 30.000001, 180}};
+    for (int k = 0; k < 2; ++k) {
+      const double* d = dargs[k]; const double* q = iargs[k];
+      std::string dn = "(" + fmt(d[0]) + "," + fmt(d[1]) + "," + fmt(d[2]) + "," + fmt(d[3]), qn = "(" + fmt(q[0]) + "," + fmt(q[1]) + "," + fmt(q[2]) + "," + fmt(q[3]);
+      ops.push_back({0, 0, {d[0], d[1], d[2], d[3]}, "Direct" + dn + ",lat2,lon2)"});
+      ops.push_back({1, 0, {d[0], d[1], d[2], d[3]}, "Direct" + dn + ",lat2,lon2,S12)"});
+      for (unsigned m : masks) ops.push_back({2, m, {d[0], d[1], d[2], d[3]}, "GenDirect" + dn + "," + hmask(m) + ")"});
+      ops.push_back({3, 0, {q[0], q[1], q[2], q[3]}, "Inverse" + qn + ",s12,azi12)"});
+      ops.push_back({4, 0, {q[0], q[1], q[2], q[3]}, "Inverse" + qn + ",s12,azi12,S12)"});
+      for (unsigned b = 0; b < 8; ++b) { unsigned m = (b & 1 ? Rhumb::DISTANCE : 0) | (b & 2 ? Rhumb::AZIMUTH : 0) | (b & 4 ? Rhumb::AREA : 0); ops.push_back({5, m, {q[0], q[1], q[2], q[3]}, "GenInverse" + qn + "," + hmask(m) + ")"}); }
+      ops.push_back({6, Rhumb::LATITUDE | Rhumb::LONGITUDE, {d[0], d[1], d[2], d[3]}, "Line+GenPosition" + dn + ",LAT|LON)"});
+      ops.push_back({6, Rhumb::ALL, {d[0], d[1], d[2], d[3]}, "Line+GenPosition" + dn + ",ALL)"});
+    }
+    std::string title = std::string("Rhumb(") + fmt(rc.a) + "," + fmt(rc.f) + (rc.exact ? ",exact)" : ",series)");
+    history_bfs(ctx, title, ops, T ? 3 : 2,
+                [&]() { return std::unique_ptr<Rhumb>(new Rhumb(rc.a, rc.f, rc.exact)); },
+                [](Rhumb& r, const HOp& op) { return apply_rhumb(r, op); },
+                [](Rhumb& r) { return rhumb_key(r); },
+                {{"object", "Rhumb"}, {"exact", fmti(rc.exact)}, {"f", fmt(rc.f)}});
+  }
+}
+
 int main(int argc, char** argv) {
   Ctx ctx(argc, argv);
   const bool T = ctx.thorough();
@@ -391,6 +550,7 @@ int main(int argc, char** argv) {
       }
     }
   }
+  run_histories(ctx, T);
   ctx.note("tolerance model: (K + C_TR |n|^7/eps [series]) * [eps * scale + sens]; sens = change of the oracle answer under a 2^-52*90deg move of a latitude argument; K_S=" + fmt(K_S) + " K_AZI=" + fmt(K_AZI) + " K_AREA=" + fmt(K_AREA) + " K_LAT=" + fmt(K_LAT) + " K_LON=" + fmt(K_LON) + " K_DAREA=" + fmt(K_DAREA) + " C_TR=" + fmt(C_TR) + " (calibrated on the unchanged tree, frozen)");
   return ctx.finish();
 }
